@@ -834,8 +834,15 @@ analyze_function(CallGraphNode cg_node,
       CRAB_VERBOSE_IF(1, get_msg_stream()
                              << "++ Fixpoint reached for recursive function "
                              << cfg.get_func_decl().get_func_name() << "!\n";);
-      // Don't check invariants with the last iteration
-      return nullptr;
+      if (iteration > 0) {
+        // The previous iteration (our caller) stores the invariants.
+        return nullptr;
+      }
+      // The fixpoint converged in the very first iteration (e.g., the
+      // function's exit is unreachable and the recursive calls do not
+      // enlarge the entry). There is no previous iteration so we must
+      // store the invariants here: the function's body is reachable
+      // even if its exit is not.
     } else {
       CRAB_VERBOSE_IF(1, get_msg_stream()
                              << "++ Widening " << iteration
